@@ -68,7 +68,7 @@ Definition rstab_syms : list symdef :=
 
 (** the loop over the requested names of VSsetfields, write-definition branch (vsfld.c ~116..196):
     [acc] = fields so far (reversed), [ivsize] = running record size.  The user's symbol table is searched
-    before the reserved one; sizes are checked against MAX_FIELD_SIZE only for user symbols. *)
+    before the reserved one; the field size is checked against MAX_FIELD_SIZE for user symbols, the record size for both. *)
 Fixpoint setfields_w_loop (usym : list symdef) (names : list (list Z)) (acc : list wfield) (ivsize : Z)
   : option (list wfield * Z) :=
   match names with
@@ -95,8 +95,9 @@ Fixpoint setfields_w_loop (usym : list symdef) (names : list (list Z)) (acc : li
               | Some nsz =>
                   let esize := u16 (s_order s * nsz) in
                   let isize := u16 (s_order s * s_isize s) in
-                  setfields_w_loop usym rest (mkwf (s_name s) (s_type s) isize esize (s_order s) 0 :: acc)
-                                   (u16 (ivsize + isize))
+                  let v2 := ivsize + isize in
+                  if MAX_FIELD_SIZE <? v2 then None else
+                  setfields_w_loop usym rest (mkwf (s_name s) (s_type s) isize esize (s_order s) 0 :: acc) (u16 v2)
               end
           | None => None
           end
